@@ -741,6 +741,13 @@ func (x *Exec) specCall(e *ast.CallExpr, sc *SpecScope, st *State) *Value {
 			fn = "bytesval8"
 		}
 		return &Value{Tm: App(fn, UnS("Bytes"), x.sliceContents(st, v.Tm, bs, types.Typ[types.Uint8]), SOff(v.Tm), SLen(v.Tm))}
+	case "byteat":
+		// byteat(slice, i): element i of a byte slice given without Go type (e.g. a ghost Slice)
+		sv, iv := arg(0), arg(1)
+		bs := x.sortOf(types.Typ[types.Uint8])
+		return x.typed(types.Typ[types.Uint8], Select(x.sliceContents(st, sv.Tm, bs, types.Typ[types.Uint8]), Add(SOff(sv.Tm), x.specInt(iv))))
+	case "cap":
+		return &Value{T: types.Typ[types.Int], Tm: SCap(arg(0).Tm)}
 	case "arr":
 		return &Value{Tm: SArr(arg(0).Tm)}
 	case "off":
